@@ -62,6 +62,29 @@ Fold2(s) == s + (s \div W16)                          \* s = s + s>>16
 MechValue(b) == 65535 - (Fold2(Fold1(MechAcc(b))) % W16)   \* ^uint16(s)
 MechStored(b) == <<MechValue(b) % 256, MechValue(b) \div 256>>   \* p[10] = byte(v); p[11] = byte(v>>8)
 
+\* ------------------------------------------------------------------ how many folding steps a sum needs
+\* the unfolded sum of the big-endian words: what a wide accumulator holds before any carry is folded back
+USum(b) == FoldLeft(LAMBDA a, w : a + w, 0, Words(b))
+\* number of steps s -> (s div 2^16) + (s mod 2^16) until the value fits 16 bits.  An implementation that folds
+\* fewer times than its grouping of terms needs (one fold after adding three 16-bit terms, one fold of a long
+\* accumulation) is wrong exactly on the inputs of class 2.
+FoldsNeeded(s) == IF s < W16 THEN 0 ELSE IF Fold1(s) < W16 THEN 1 ELSE IF Fold1(Fold1(s)) < W16 THEN 2 ELSE 3
+
+\* characterisation of the classes for small high halves (sums of a few 16-bit terms): two folds are needed exactly
+\* when the low half is within `hi` of overflowing -- e.g. for three terms only the total 0x1ffff
+FoldClasses ==
+  \A hi \in 0..3 : \A lo \in 0..65535 :
+     LET t == hi * W16 + lo
+     IN  /\ FoldsNeeded(t) <= 2
+         /\ (FoldsNeeded(t) = 2) <=> (hi >= 1 /\ lo >= W16 - hi)
+         /\ (FoldsNeeded(t) = 0) <=> (hi = 0)
+         /\ Reduce(t) = (IF FoldsNeeded(t) = 2 THEN Fold1(Fold1(t)) ELSE IF FoldsNeeded(t) = 1 THEN Fold1(t) ELSE t)
+\* three 16-bit terms: the only total that needs a second fold is 0x1ffff
+ThreeTermTotals == \A t \in 0..(3 * 65535) : (FoldsNeeded(t) = 2) <=> (t = 131071)
+
+\* x such that x +' y = t in one's-complement arithmetic (used to construct vectors with a prescribed sum)
+Sub1c(t, y) == Add1c(t, 65535 - y)
+
 \* ------------------------------------------------------------------ lemmas (checked by TLC)
 \* the mechanism computes the RFC 1071 bytes
 MechConforms(b) == MechStored(b) = Stored(b) /\ MechValue(b) = LibValue(b)
